@@ -1,4 +1,5 @@
 import Np.Props.C01
+import Np.Proofs.Expr3
 import Np.Props.C03
 import Np.Props.C04
 import Np.Props.C06
@@ -56,5 +57,36 @@ theorem program_indep {R : Type} [CommRing R] [BEq R] [LawfulBEq R] (rc rn rc' r
     r.shape = r'.shape ∧ ∀ i (hi : i < Shape.size r.shape) (hi' : i < Shape.size r'.shape),
       r.elem ⟨i, hi⟩ = r'.elem ⟨i, hi'⟩ :=
   expr2_den_unique rc rn rc' rn' env henv t r r' h h'
+
+/-! ### the larger program language `Expr3` (`Np/Model/Expr3.lean`): `+ - neg pos * **k **array` plus derivative by
+name, any gather (indexing, reshape, transpose, ...), joins of several operands (concatenate, stack, where, ...) and
+linear reductions (sum, cumsum, diff, mean numerators) -/
+/-- every successful evaluation of a program on well-formed operands is well-formed -/
+theorem program3_wf {R : Type} [CommRing R] [BEq R] [LawfulBEq R] (rc rn : Bool) (env : List (Arr R))
+    (henv : ∀ a ∈ env, a.WF) (t : Expr3) (r : Arr R) (h : evalModel3 rc rn env t = .ok r) : r.WF :=
+  expr3_wf rc rn env henv t r h
+
+/-- **C15 for compositions that differentiate, index, join and reduce**: two successful evaluations of one program under
+any two settings of the retain flags have the same shape and the same elements -/
+theorem program3_indep {R : Type} [CommRing R] [BEq R] [LawfulBEq R] (rc rn rc' rn' : Bool) (env : List (Arr R))
+    (henv : ∀ a ∈ env, a.WF) (t : Expr3) (r r' : Arr R) (h : evalModel3 rc rn env t = .ok r)
+    (h' : evalModel3 rc' rn' env t = .ok r') :
+    r.shape = r'.shape ∧ ∀ i (hi : i < Shape.size r.shape) (hi' : i < Shape.size r'.shape),
+      r.elem ⟨i, hi⟩ = r'.elem ⟨i, hi'⟩ := expr3_indep rc rn rc' rn' env henv t r r' h h'
+
+/-- whether a program succeeds does not depend on the flags either - for programs without a derivative *by name* -/
+theorem program3_succeeds_indep {R : Type} [CommRing R] [BEq R] [LawfulBEq R] (rc rn rc' rn' : Bool)
+    (env : List (Arr R)) (henv : ∀ a ∈ env, a.WF) (t : Expr3) (hn : t.noDeriv = true) :
+    (∃ r, evalModel3 rc rn env t = .ok r) ↔ (∃ r', evalModel3 rc' rn' env t = .ok r') :=
+  expr3_succeeds_indep rc rn rc' rn' env henv t hn
+
+/-- … and the restriction is needed: `derivative(q0*q1 - q0*q1, "q1")` succeeds while the cancelled indeterminate is
+still carried (retain_coefficients=True) and raises ValueError once `retain_names=False` has dropped it. The library
+does the same (`poly.names.index(name)`); DESIGN.md §7 lists this dependence on the *stored* names among the
+observations. Values and shapes never differ where both runs succeed (`program3_indep`). -/
+theorem derivative_by_name_success_depends_on_flags :
+    ∃ (env : List (Arr Int)) (t : Expr3), (∀ a ∈ env, a.WF) ∧
+      (∃ r, evalModel3 true true env t = .ok r) ∧ (∃ r, evalModel3 true false env t = .ok r) ∧
+      evalModel3 false false env t = .error .valueError := deriv_success_depends_on_flags
 
 end Np.Props.C15
